@@ -330,7 +330,10 @@ pub(super) fn derive_schema(input: TokenStream) -> syn::Result<TokenStream> {
                 Ok(quote! {
                     /* `anyOf`: two members can have the same type, and then an element matches both */
                     ::ohkami::openapi::array(::ohkami::openapi::anyOf(
-                        (#(#type_schemas,)*)
+                        /* a `Vec`, not a tuple: that would limit the number of members */
+                        ::std::vec::Vec::<::ohkami::openapi::schema::SchemaRef>::from([
+                            #(::std::convert::Into::into(#type_schemas),)*
+                        ])
                     ))
                 })
             }
@@ -504,7 +507,10 @@ pub(super) fn derive_schema(input: TokenStream) -> syn::Result<TokenStream> {
 
             Ok(quote! {
                 ::ohkami::openapi::#one_of(
-                    ( #(#variant_schemas,)* )
+                    /* a `Vec`, not a tuple: that would limit the number of variants */
+                    ::std::vec::Vec::<::ohkami::openapi::schema::SchemaRef>::from([
+                        #(::std::convert::Into::into(#variant_schemas),)*
+                    ])
                 )
             })
         }
